@@ -499,6 +499,14 @@ class EbuildProcessor:
                 raise RuntimeError(ie)
             raise
 
+    def _wire_len(self, string):
+        """Size of a payload as the daemon counts it.
+
+        The daemon is spawned without any locale settings, so its ``read -N``
+        counts bytes, not characters.
+        """
+        return len(string.encode(self.ebd_write.encoding))
+
     def _consume_async_expects(self):
         if any(x[0] for x in self._outstanding_expects):
             self.ebd_write.flush()
@@ -736,6 +744,25 @@ class EbuildProcessor:
         # which isn't always true.
         self.pid = None
 
+    @staticmethod
+    def _quote_env_value(val):
+        """Quote text (anything but NUL) so that bash reads back exactly that text."""
+        if "'" not in val:
+            return f"'{val}'"
+        # ANSI-C quoting: escape backslashes (first) as well as the quotes, else
+        # sequences like \n or \x41 in the value are interpreted by bash
+        val = val.replace("\\", "\\\\").replace("'", "\\'")
+        return f"$'{val}'"
+
+    @classmethod
+    def _quote_env_element(cls, val):
+        """Quote an array element; plain text keeps the double quoted form."""
+        # \, ", $ and ` are active inside double quotes, and bash mangles the
+        # control chars \001 and \177 in double quoted compound assignments
+        if any(x in val for x in '\\"$`\x01\x7f'):
+            return cls._quote_env_value(val)
+        return f'"{val}"'
+
     def _generate_env_str(self, env_dict):
         env_dict = dict(env_dict)
         # EAPI 9+ marks variables that must be set but not exported (see PMS);
@@ -757,13 +784,12 @@ class EbuildProcessor:
                 )
 
             if isinstance(val, (list, tuple)):
-                assign = f"{key}=({' '.join(f'[{i}]="{value}"' for i, value in enumerate(val))})"
+                elements = (self._quote_env_element(str(x)) for x in val)
+                assign = f"{key}=({' '.join(f'[{i}]={x}' for i, x in enumerate(elements))})"
             elif val.isalnum():
                 assign = f"{key}={val}"
-            elif "'" not in val:
-                assign = f"{key}='{val}'"
             else:
-                assign = f"{key}=$'{val.replace("'", "\\'")}'"
+                assign = f"{key}={self._quote_env_value(val)}"
 
             (plain if key in nonexported else exported).append(assign)
 
@@ -794,7 +820,8 @@ class EbuildProcessor:
             self.write(f"start_receiving_env file {path}")
         else:
             self.write(
-                f"start_receiving_env bytes {len(data)}\n{data}", append_newline=False
+                f"start_receiving_env bytes {self._wire_len(data)}\n{data}",
+                append_newline=False,
             )
         os.umask(old_umask)
         return self.expect("env_received", async_req=async_req, flush=True)
@@ -827,7 +854,9 @@ class EbuildProcessor:
         # filter here, so that a screwy default doesn't result in resetting it
         # every time.
         data = os.pathsep.join(filter(None, paths))
-        self.write(f"set_metadata_path {len(data)}\n{data}", append_newline=False)
+        self.write(
+            f"set_metadata_path {self._wire_len(data)}\n{data}", append_newline=False
+        )
         if self.expect("metadata_path_received", flush=True):
             self._metadata_paths = paths
 
@@ -842,7 +871,7 @@ class EbuildProcessor:
 
         env = expected_ebuild_env(package_inst, env, depends=True)
         data = self._generate_env_str(env)
-        self.write(f"{command} {len(data)}\n{data}", append_newline=False)
+        self.write(f"{command} {self._wire_len(data)}\n{data}", append_newline=False)
 
         updates = None
         if self._eclass_caching:
